@@ -7,6 +7,7 @@ package harness
 import (
 	"bytes"
 	"context"
+	"encoding/binary"
 	"errors"
 	"fmt"
 	"github.com/ipld/go-ipld-prime/codec"
@@ -144,6 +145,20 @@ type sessionKey struct{}
 var sessionCtx = context.WithValue(context.Background(), sessionKey{}, "verif-session")
 var lcS = ipld.LinkContext{Ctx: sessionCtx}
 
+// RawEnvelopeUvarint as Store.RawEnvelope: raw blocks are stored behind a uvarint length prefix.
+const RawEnvelopeUvarint = -1
+
+// rawOverhead is the number of framing bytes in front of the content of a raw block stored under the store's raw codec.
+func (s *Store) rawOverhead(block []byte) int {
+	switch {
+	case s.RawEnvelope == RawEnvelopeUvarint:
+		_, n := binary.Uvarint(block)
+		return max(n, 0)
+	default:
+		return s.RawEnvelope
+	}
+}
+
 type Store struct {
 	mu     sync.Mutex
 	Blocks map[cid.Cid][]byte
@@ -180,6 +195,9 @@ type Store struct {
 	// RequireSession: read opens whose LinkContext does not carry sessionCtx's value fail (injected fault "request context
 	// lost"): the library has to pass the context it was given on to every load it makes on behalf of that request
 	RequireSession bool
+	// HonorCtx: a read open whose context is already done fails with the context's error, as a store that passes the
+	// context on to its backend does (the library must use the caller's live context for every load, not one it cancelled)
+	HonorCtx bool
 	// Trusted: link systems made for this store have TrustedStorage set
 	Trusted bool
 
@@ -253,6 +271,12 @@ func (s *Store) Len() int {
 
 func (s *Store) openRead(lc linking.LinkContext, l datamodel.Link) (io.Reader, error) {
 	c := l.(cidlink.Link).Cid
+	if s.HonorCtx && lc.Ctx != nil && lc.Ctx.Err() != nil {
+		s.mu.Lock()
+		s.Reads = append(s.Reads, c)
+		s.mu.Unlock()
+		return nil, fmt.Errorf("verif-injected: load of %s with a context that is already done: %w", c, lc.Ctx.Err())
+	}
 	if s.RequireSession && (lc.Ctx == nil || lc.Ctx.Value(sessionKey{}) != "verif-session") {
 		s.mu.Lock()
 		s.Reads = append(s.Reads, c)
@@ -364,11 +388,13 @@ func (s *Store) openWrite(_ linking.LinkContext) (io.Writer, linking.BlockWriteC
 //	2: the reifiers are registered on a template link system without storage; the link system in use is a COPY of it whose
 //	   storage is set afterwards (KnownReifiers is shared with the template)
 //	3: AddUnixFSReificationToLinkSystem is called twice
+//	5: KnownReifiers was filled by hand with the lazy reifier only (code written before the helper existed), then the
+//	   helper is called
 //	4: somebody else set a link system of their own up before and then replaced ITS named reifiers by pass-through ones
 //	   (what a caller who wants raw dag-pb from "unixfs" selectors does); ours is set up the common way afterwards
 func (s *Store) LinkSystem() *ipld.LinkSystem {
 	s.mu.Lock()
-	variant := s.lsCalls % 5
+	variant := s.lsCalls % 6
 	s.lsCalls++
 	s.mu.Unlock()
 	return s.LinkSystemVariant(variant)
@@ -377,9 +403,9 @@ func (s *Store) LinkSystem() *ipld.LinkSystem {
 func (s *Store) LinkSystemVariant(variant int) *ipld.LinkSystem {
 	ls := s.linkSystemVariant(variant)
 	ls.TrustedStorage = s.Trusted
-	if s.RawEnvelope > 0 {
+	if s.RawEnvelope != 0 {
 		inner := ls.EncoderChooser
-		env := bytes.Repeat([]byte{0xE7}, s.RawEnvelope)
+		fixed := s.RawEnvelope
 		ls.EncoderChooser = func(lp datamodel.LinkPrototype) (codec.Encoder, error) {
 			enc, err := inner(lp)
 			if err != nil {
@@ -389,6 +415,15 @@ func (s *Store) LinkSystemVariant(variant int) *ipld.LinkSystem {
 				return enc, nil
 			}
 			return func(n datamodel.Node, w io.Writer) error {
+				env := bytes.Repeat([]byte{0xE7}, max(fixed, 0))
+				if fixed == RawEnvelopeUvarint {
+					// a length prefix: the overhead depends on the content's length (1 byte below 128, 2 below 16384, ...)
+					b, err := n.AsBytes()
+					if err != nil {
+						return err
+					}
+					env = binary.AppendUvarint(nil, uint64(len(b)))
+				}
 				if _, err := w.Write(env); err != nil {
 					return err
 				}
@@ -445,6 +480,11 @@ func (p pieceWriter) Write(b []byte) (int, error) {
 func (s *Store) linkSystemVariant(variant int) *ipld.LinkSystem {
 	ls := cidlink.DefaultLinkSystem()
 	switch variant {
+	case 5:
+		ls.KnownReifiers = map[string]linking.NodeReifier{"unixfs": unixfsnode.Reify}
+		ls.StorageReadOpener = s.openRead
+		ls.StorageWriteOpener = s.openWrite
+		unixfsnode.AddUnixFSReificationToLinkSystem(&ls)
 	case 4:
 		other := cidlink.DefaultLinkSystem()
 		unixfsnode.AddUnixFSReificationToLinkSystem(&other)
